@@ -256,8 +256,9 @@ Proof.
   assert (HwI : forall b, wo_wrap o = Some b -> expected_item fstr KVersion (o_mcase ro) wit = wrap_item b).
   { intros b Hb. rewrite Hb in HW. apply hitem_eqb_eq. exact HW. }
   destruct (second_write_sections fmtv fmt_diff fmt_pi fstr fzero numeq ro (wo_version o) (wo_wrap o) (col_fmt o 0%nat) m hs Hs
-              l HlV HlW HlC HlP StV StW StC StP wit vit EW HwI HcV Hstd Hfv Hdlm sit pit eit c0 crest ES EP EE EC
-              ltac:(assumption) ltac:(assumption) ltac:(assumption) (Some (nth 0%nat (l_data l) [])) Hneed)
+              l HlV HlW HlC HlP (Forall_stable_weak fstr fzero ro _ _ _ StV) (Forall_stable_weak fstr fzero ro _ _ _ StW)
+              (Forall_stable_weak fstr fzero ro _ _ _ StC) wit vit EW HwI HcV Hstd Hfv Hdlm sit pit eit c0 crest ES EP EE EC
+              ltac:(assumption) ltac:(assumption) ltac:(assumption) (Some (nth 0%nat (l_data l) [])) Hneed StV StW StC StP)
     as (vsw2 & Hs2).
   (* the first write, factored *)
   destruct (WriteOptionsProofs.write_ok_inv fmtv fmt_diff fmt_pi fstr fzero numeq o m text m' Hw) as (hs0 & d & Hs0 & Hd & Ht & _).
@@ -266,7 +267,11 @@ Proof.
   rewrite write_factors, Hs2.
   set (hs2 := mkhs (hs_wrap hs) (hs_version hs) vsw2 (hs_lv hs) (hs_lw hs) (hs_lc hs) (hs_lp hs) (norm_las fzero l)).
   assert (Hnt2 : las_null_text fstr (hs_las hs2) = Some nt).
-  { apply (second_null_text fmt_pi fstr fzero ro nt hs l HlW StW nit nt EN HN). }
+  { assert (Hin : In nit (s_items (l_well (hs_las hs)))).
+    { assert (X : In nit (filter (in_class (o_mcase ro) k_null) (s_items (l_well (hs_las hs))))) by (rewrite EN; left; reflexivity).
+      apply filter_In in X. tauto. }
+    rewrite Forall_forall in StW.
+    apply (second_null_text fstr fzero ro hs l HlW nit nt EN (StW nit Hin) HN). }
   assert (HT2 : tok_matrix fmtv o nt (las_rows (hs_las hs2)) = T).
   { rewrite <- Hpn in Hback.
     apply (second_tok_matrix fmtv fmt_pi fhex fstr numeq ro pn o nt cn T Hc HTlen Hback (hs_las hs2)).
